@@ -139,16 +139,25 @@ def run_witness(repo=None):
     root = os.path.join(extract.CACHE, "witness")
     os.makedirs(root, exist_ok=True)
     resf = os.path.join(root, key + ".json")
+    def _cached():
+        # (a result file cut short by a full disk is no result)
+        try:
+            with open(resf) as f:
+                return json.load(f)
+        except (OSError, ValueError):
+            return None
     if os.path.exists(resf):
-        with open(resf) as f:
-            return json.load(f)
+        r_ = _cached()
+        if r_ is not None:
+            return r_
     # parallel self-test workers (extract.WORKER set) build in their own crate / target directory, so that they do not queue on one lock
     wsuf = ("-" + str(extract.WORKER)) if getattr(extract, "WORKER", "") else ""
     with open(os.path.join(extract.CACHE, "lock-witness" + wsuf), "w") as lk:
         fcntl.flock(lk, fcntl.LOCK_EX)
         if os.path.exists(resf):
-            with open(resf) as f:
-                return json.load(f)
+            r_ = _cached()
+            if r_ is not None:
+                return r_
         d = os.path.join(root, "crate" + wsuf)
         shutil.rmtree(d, ignore_errors=True)
         os.makedirs(os.path.join(d, "src"))
@@ -211,8 +220,9 @@ def run_witness(repo=None):
         res["groups"]["compile_fail"] = cf
         res["doc_output_tail"] = out[-1500:] if r.returncode != 0 else ""
         res["wall_s"] = round(time.time() - t0, 1)
-        with open(resf, "w") as f:
+        with open(resf + ".tmp", "w") as f:
             json.dump(res, f, indent=1)
+        os.replace(resf + ".tmp", resf)
         # keep the cache small
         for fn in os.listdir(root):
             try:
